@@ -424,11 +424,18 @@ func (vc *VC) callByContract(fr *Frame, n *Node, callee *ssa.Function, fc *FuncC
 		ob := vc.newObl(fmt.Sprintf("%s/call %s#%d/pre/%s", relKey(fr.fn), relKey(callee), ord, lbl), "pre", c.Tags, c.Text, pos)
 		vc.assertAt(n, f, ob)
 	}
-	// frame
+	// frame (the allocation map grows first, so that havocked pointers may designate objects allocated by the callee)
 	explicit := false
 	for _, c := range fc.Clauses {
 		if c.Kind == "modifies" {
 			explicit = true
+		}
+	}
+	if explicit {
+		vc.allocMono(n, pre)
+	}
+	for _, c := range fc.Clauses {
+		if c.Kind == "modifies" {
 			for _, loc := range splitTopLevel(c.Text) {
 				if err := vc.havocLoc(sc, n, loc); err != nil {
 					vc.specError(c, err)
@@ -437,7 +444,6 @@ func (vc *VC) callByContract(fr *Frame, n *Node, callee *ssa.Function, fc *FuncC
 		}
 	}
 	if explicit {
-		vc.allocMono(n, pre)
 	} else {
 		ms := vc.p.autoMods[callee]
 		if ms == nil || ms.Top {
@@ -601,6 +607,15 @@ func (vc *VC) havocLoc(sc *SpecCtx, n *Node, loc string) error {
 }
 
 func (vc *VC) havocLV(n *Node, lv *LVal) {
+	if lv.typ == nil {
+		// spec-only typed ghost location
+		srt := lv.gsort
+		if srt == "" {
+			srt = "Int"
+		}
+		vc.store(n, lv, vc.fresh("hv", srt))
+		return
+	}
 	if isAggregate(lv.typ) && lv.kind == lvHeap && len(lv.idx) == 0 {
 		s := lv.typ.Underlying().(*types.Struct)
 		for i := 0; i < s.NumFields(); i++ {
